@@ -29,6 +29,20 @@ type Setup struct {
 	Proto string
 	N, T  int
 	Seed  uint64 // selects key material and party randomness
+	// MsgLen: length of the message (hash) to be signed; 0 = the standard 32-byte message
+	MsgLen int `json:",omitempty"`
+}
+
+// Msg is the message the signing protocols of this setup sign.
+func (s Setup) Msg() []byte {
+	if s.MsgLen == 0 {
+		return Message
+	}
+	out := make([]byte, s.MsgLen)
+	for i := range out {
+		out[i] = Message[i%len(Message)] ^ byte(i/len(Message)*37+s.MsgLen)
+	}
+	return out
 }
 
 type built struct {
@@ -116,7 +130,7 @@ func Build(s Setup) (*proto.Session, *proto.Material, error) {
 			preCache[key] = pre
 			mu.Unlock()
 		}
-		sess := m.SignSession(s.Proto, m.IDs, Message, sid)
+		sess := m.SignSession(s.Proto, m.IDs, s.Msg(), sid)
 		sess.Pre = map[party.ID]*ecdsa.PreSignature{}
 		for k, v := range pre {
 			c := *v
@@ -124,7 +138,7 @@ func Build(s Setup) (*proto.Session, *proto.Material, error) {
 		}
 		return sess, m, nil
 	default:
-		return m.SignSession(s.Proto, m.IDs, Message, sid), m, nil
+		return m.SignSession(s.Proto, m.IDs, s.Msg(), sid), m, nil
 	}
 }
 
@@ -230,6 +244,9 @@ func Run(c Case) (*Report, error) {
 	if err := sess.AddAll(n); err != nil {
 		return rep, err
 	}
+	if rep.Applied != nil {
+		rep.Applied.Start()
+	}
 	if err := n.Run(sim.FromList(c.Sched), 200000); err != nil {
 		return rep, err
 	}
@@ -269,7 +286,7 @@ func (r *Report) WrongResult() (sig, detail string) {
 	switch p {
 	case proto.CMPSign, proto.CMPPresignOnline, proto.CMPPresignFull, proto.FrostSign, proto.FrostSignTap, proto.DoernerSign:
 		for _, id := range fin {
-			if err := proto.CheckSignature(p, r.Outcome[id].Value, r.Material.Pub, Message); err != nil {
+			if err := proto.CheckSignature(p, r.Outcome[id].Value, r.Material.Pub, r.Case.Setup.Msg()); err != nil {
 				return "wrong-signature:" + p, fmt.Sprintf("honest party %q finished with an invalid signature: %v", id, err)
 			}
 		}
